@@ -248,6 +248,7 @@ type c03Cfg struct {
 	AwMax    int
 	MaxMult  int
 	Enc      bool
+	PerNode  bool `json:",omitempty"` // stream pings are switched off per node (DisableTcpPingsForNode says yes for everybody), not globally
 }
 
 type detScn struct {
@@ -283,6 +284,10 @@ func runDetect(t *testing.T, s detScn) (x nExec) {
 				c.TCPTimeout = 30 * time.Second // WAN default: far above the probe interval, which must not matter
 				c.IndirectChecks = s.Cfg.Indirect
 				c.DisableTcpPings = !s.Cfg.TCP
+				if s.Cfg.PerNode {
+					c.DisableTcpPings = false
+					c.DisableTcpPingsForNode = func(string) bool { return true }
+				}
 				c.SuspicionMult = s.Cfg.SuspMult
 				c.AwarenessMaxMultiplier = s.Cfg.AwMax
 				c.SuspicionMaxTimeoutMult = s.Cfg.MaxMult
@@ -433,9 +438,168 @@ func runDetect(t *testing.T, s detScn) (x nExec) {
 	return
 }
 
+// ---------------------------------------------------------------- (c) crashes first learnt from a peer's list
+
+// hearsayScn: one real node o, one live peer t (the harness answers its pings) and k members that have
+// crashed (the harness answers nothing for them). Before o's own probes have noticed anything, an
+// anti-entropy exchange with t delivers t's view of them: States[i] for member ci, entries in the given
+// order. From then on o has to get rid of every one of them on its own evidence within the bound.
+type hearsayScn struct {
+	States []string `json:"states"` // per crashed member: alive | suspect | dead
+	Order  []int    `json:"order"`  // order of the entries in the remote list
+	Mult   int      `json:"suspicion_mult"`
+}
+
+func runHearsay(t *testing.T, s hearsayScn) (verdict, msg string) {
+	res := inBubble(t, func(b *bubble) {
+		installDetRand()
+		const interval = time.Second
+		nd, err := newNode("o", ip4(1), func(c *ml.Config) {
+			c.ProbeInterval = interval
+			c.ProbeTimeout = 300 * time.Millisecond
+			c.IndirectChecks = 0
+			c.DisableTcpPings = true
+			c.SuspicionMult = s.Mult
+			c.AwarenessMaxMultiplier = 2
+		})
+		must(err)
+		o := b.track(nd)
+		advance(time.Microsecond)
+		k := len(s.States)
+		o.M.VAliveNode(&ml.VAlive{Incarnation: 1, Node: "t", Addr: ip4(9), Port: 7946, Vsn: defaultVsn}, nil, false)
+		for i := 0; i < k; i++ {
+			o.M.VAliveNode(&ml.VAlive{Incarnation: 1, Node: fmt.Sprintf("c%d", i), Addr: ip4(byte(10 + i)), Port: 7946, Vsn: defaultVsn}, nil, false)
+		}
+		advance(time.Microsecond)
+		o.T.OnSend = func(p sentPkt) {
+			if p.To != "10.0.0.9:7946" {
+				return
+			}
+			leaves, _ := explode(p.Buf)
+			for _, l := range leaves {
+				var pg ml.VPing
+				if l[0] == ml.VPingMsg && ml.VDecode(l[1:], &pg) == nil {
+					ack, _ := ml.VEncode(ml.VAckRespMsg, &ml.VAckResp{SeqNo: pg.SeqNo}, false)
+					o.T.Deliver(ack, simAddr(p.To))
+				}
+			}
+		}
+		n := k + 2
+		B := time.Duration(2*n*2)*interval + time.Duration(o.Cfg.SuspicionMaxTimeoutMult)*ml.VSuspicionTimeout(s.Mult, n, interval)
+		t0 := time.Now()
+		var list []ml.VPushNodeState
+		list = append(list, ml.VPushNodeState{Name: "t", Addr: ip4(9), Port: 7946, Incarnation: 1, State: ml.StateAlive, Vsn: defaultVsn})
+		for _, i := range s.Order {
+			st := map[string]ml.NodeStateType{"alive": ml.StateAlive, "suspect": ml.StateSuspect, "dead": ml.StateDead}[s.States[i]]
+			list = append(list, ml.VPushNodeState{Name: fmt.Sprintf("c%d", i), Addr: ip4(byte(10 + i)), Port: 7946, Incarnation: 1, State: st, Vsn: defaultVsn})
+		}
+		must(o.M.VMergeRemoteState(false, list, nil))
+		settle()
+		removed := map[string]time.Duration{}
+		note := func() {
+			for i := 0; i < k; i++ {
+				name := fmt.Sprintf("c%d", i)
+				if _, ok := removed[name]; !ok && !listed(o, name) {
+					removed[name] = time.Since(t0)
+				}
+			}
+		}
+		for tick := 0; time.Since(t0) <= B+interval; tick++ {
+			done := make(chan struct{})
+			go func() { o.M.VProbe(); close(done) }()
+			settle()
+			for waited := 0; ; waited++ {
+				select {
+				case <-done:
+				default:
+					if waited > 40 {
+						verdict, msg = "probe-never-returned", fmt.Sprintf("%+v: a probe is still running %v after it began", s, time.Duration(waited)*100*time.Millisecond)
+						return
+					}
+					time.Sleep(100 * time.Millisecond)
+					settle()
+					note()
+					continue
+				}
+				break
+			}
+			note()
+			// the next tick of a ticker with this period (a tick missed during a long probe is delivered at once)
+			next := t0.Add(time.Duration(tick+1)*interval + 137*time.Microsecond)
+			for time.Now().Before(next) {
+				d := time.Until(next)
+				if d > 100*time.Millisecond {
+					d = 100 * time.Millisecond
+				}
+				time.Sleep(d)
+				settle()
+				note()
+			}
+		}
+		for i := 0; i < k; i++ {
+			name := fmt.Sprintf("c%d", i)
+			d, ok := removed[name]
+			if !ok || d > B {
+				verdict, msg = "crashed-member-not-removed-in-time", fmt.Sprintf("%+v: o still lists %s %v after learning of the crash from t's list (bound %v; record %s)", s, name, time.Since(t0), B, recStr(findRec(o.M.VSnapshot(), name)))
+				return
+			}
+			leaves := 0
+			for _, ev := range o.Ev.Log {
+				if ev.Kind == "leave" && ev.Name == name {
+					leaves++
+				}
+			}
+			if leaves != 1 {
+				verdict, msg = "leave-event-count", fmt.Sprintf("%+v: %d leave events for %s", s, leaves, name)
+				return
+			}
+		}
+		if !listed(o, "t") {
+			verdict, msg = "live-peer-removed", fmt.Sprintf("%+v: the answering peer t is no longer listed", s)
+		}
+	})
+	if res.Panic != nil {
+		return "panic", fmt.Sprint(res.Panic)
+	}
+	if res.Leak && verdict == "" {
+		return "goroutine-leak", fmt.Sprintf("%+v", s)
+	}
+	return
+}
+
+func c03HearsayScns() (out []hearsayScn) {
+	perms := map[int][][]int{1: {{0}}, 2: {{0, 1}, {1, 0}}, 3: {{0, 1, 2}, {0, 2, 1}, {1, 0, 2}, {1, 2, 0}, {2, 0, 1}, {2, 1, 0}}}
+	menu := []string{"suspect", "dead", "alive"}
+	for k := 1; k <= 3; k++ {
+		total := 1
+		for i := 0; i < k; i++ {
+			total *= 3
+		}
+		for code := 0; code < total; code++ {
+			st := make([]string, k)
+			c := code
+			for i := range st {
+				st[i] = menu[c%3]
+				c /= 3
+			}
+			for _, ord := range perms[k] {
+				if !thorough() && k == 3 && (ord[0] != 0 && ord[0] != 2) {
+					continue
+				}
+				out = append(out, hearsayScn{States: st, Order: ord, Mult: 4})
+				if k == 2 {
+					out = append(out, hearsayScn{States: st, Order: ord, Mult: 3})
+				}
+			}
+		}
+	}
+	return
+}
+
 type c03Replay struct {
-	Sched *schedScn `json:"sched,omitempty"`
-	Det   *detScn   `json:"detect,omitempty"`
+	Sched *schedScn   `json:"sched,omitempty"`
+	Det   *detScn     `json:"detect,omitempty"`
+	Hear  *hearsayScn `json:"hearsay,omitempty"`
 }
 
 func TestC03(t *testing.T) {
@@ -444,7 +608,9 @@ func TestC03(t *testing.T) {
 	var rp c03Replay
 	if loadReplay(&rp) {
 		var x nExec
-		if rp.Sched != nil {
+		if rp.Hear != nil {
+			x.Verdict, x.Msg = runHearsay(t, *rp.Hear)
+		} else if rp.Sched != nil {
 			x = runSched(t, *rp.Sched)
 		} else {
 			x = runDetect(t, *rp.Det)
@@ -462,7 +628,7 @@ func TestC03(t *testing.T) {
 		rep.Samples = append(rep.Samples, rp)
 		return
 	}
-	rep.Rule = "(a) probe schedule: one real node with 1..4 peers (+ a dead-recent / dead-reapable record), probes over 3 passes, an optional join or death at 5 positions, the code's random draws (every Fisher-Yates step of every shuffle, every insertion offset) enumerated as choice points: all permutations of all wraps for lists of 2, of any two wraps for lists of 3, <= 2 (1) departures from the identity for lists of 4-5 (6); (b) detection: crash instant menu x configuration lattice x all executions with <= 1 (thorough 2) packet faults (drop, late, duplicate) or refused fallback dials among the survivors inside [crash, crash+B]"
+	rep.Rule = "(a) probe schedule: one real node with 1..4 peers (+ a dead-recent / dead-reapable record), probes over 3 passes, an optional join or death at 5 positions, the code's random draws (every Fisher-Yates step of every shuffle, every insertion offset) enumerated as choice points: all permutations of all wraps for lists of 2, of any two wraps for lists of 3, <= 2 (1) departures from the identity for lists of 4-5 (6); (b) detection: crash instant menu x configuration lattice x all executions with <= 1 (thorough 2) packet faults (drop, late, duplicate) or refused fallback dials among the survivors inside [crash, crash+B]; (c) one real node learns of 1-3 simultaneous crashes from a peer's anti-entropy list (every assignment of alive/suspect/dead to the crashed members x every order of the entries) and must remove each of them on its own probes within the bound"
 	rep.Assumptions = []string{"ticks emulated by the harness", "detection bound B = 2*n*AwarenessMaxMultiplier*ProbeInterval + SuspicionMaxTimeoutMult*suspicionTimeout with n = records held at the crash", "cluster size <= 3 (thorough 5); a bound on faults, not all loss patterns"}
 	digests := map[string]bool{}
 	execs := 0
@@ -555,10 +721,11 @@ func TestC03(t *testing.T) {
 	rep.Extra["schedule_executions"] = execs
 	// ---- (b)
 	cfgs := []c03Cfg{
-		{"ind1-tcp", 1, true, 3, 2, 2, false},
-		{"ind0-notcp", 0, false, 3, 2, 2, false},
-		{"ind3-tcp-mult4-aw3", 3, true, 4, 3, 2, false},
-		{"ind1-notcp-enc", 1, false, 3, 2, 1, true},
+		{"ind1-tcp", 1, true, 3, 2, 2, false, false},
+		{"ind0-notcp", 0, false, 3, 2, 2, false, false},
+		{"ind3-tcp-mult4-aw3", 3, true, 4, 3, 2, false, false},
+		{"ind1-notcp-enc", 1, false, 3, 2, 1, true, false},
+		{Name: "ind1-notcp-per-node", Indirect: 1, SuspMult: 3, AwMax: 2, MaxMult: 2, PerNode: true},
 	}
 	ns := []int{3}
 	bound := 1
@@ -639,10 +806,30 @@ func TestC03(t *testing.T) {
 			})
 		}
 	}
+	// ---- (c) crashes first learnt from a peer's list
+	hear := 0
+	for hi, hs := range c03HearsayScns() {
+		if !mine(700000 + hi) {
+			continue
+		}
+		hs := hs
+		journal("C03 hearsay %+v", hs)
+		v, m := runHearsay(t, hs)
+		hear++
+		rep.Transitions += 40
+		digests[fmt.Sprintf("hearsay:%v%v%d", hs.States, hs.Order, hs.Mult)] = true
+		if v != "" {
+			rep.Violate("hearsay:"+v, m, c03Replay{Hear: &hs})
+			rep.Outcome("violation:" + v)
+		} else {
+			rep.Outcome("hearsay-detected-in-time")
+		}
+	}
+	rep.Extra["hearsay_executions"] = hear
 	rep.Extra["detection_executions"] = detExecs
 	rep.Extra["max_detection_time_over_bound_permille"] = int(worstRatio * 1000)
 	rep.States = len(digests)
 	rep.Distinct = len(digests)
-	rep.Traces = execs + detExecs
-	rep.Evaluations = execs + detExecs
+	rep.Traces = execs + detExecs + hear
+	rep.Evaluations = execs + detExecs + hear
 }
